@@ -19,10 +19,15 @@ import (
 type vfC20RecCase struct {
 	Frames int  `json:"frames"` // motion frames in a row with the storage check failing
 	Window bool `json:"window"` // refuse through a closed window instead of the storage check
+	Resets []int `json:"resets,omitempty"` // camera resets after these frames
 }
 
 func vfGenC20Rec(t *rapid.T) vfC20RecCase {
-	return vfC20RecCase{Frames: rapid.IntRange(2, 120).Draw(t, "frames"), Window: rapid.Bool().Draw(t, "window")}
+	c := vfC20RecCase{Frames: rapid.IntRange(2, 120).Draw(t, "frames"), Window: rapid.Bool().Draw(t, "window")}
+	for i := rapid.IntRange(0, 3).Draw(t, "nresets"); i > 0; i-- {
+		c.Resets = append(c.Resets, rapid.IntRange(0, c.Frames-1).Draw(t, "resetafter"))
+	}
+	return c
 }
 
 func vfRunC20Rec(c vfC20RecCase) *kit.Result {
@@ -45,10 +50,18 @@ func vfRunC20Rec(c vfC20RecCase) *kit.Result {
 		rc.Cfg.WinStart, rc.Cfg.WinEnd = 600, 660 // 10:00-11:00, clock at 12:30
 	}
 	rc.Ev = append(rc.Ev, vfEv{K: vfEvFrame, T: 12*3600 + 1800})
+	resetAfter := map[int]bool{}
+	for _, i := range c.Resets {
+		resetAfter[i] = true
+	}
 	for i := 0; i < c.Frames; i++ {
 		rc.Ev = append(rc.Ev, vfEv{K: vfEvFrame, M: true, T: 12*3600 + 1800})
 		if !c.Window {
 			rc.Faults.Check = append(rc.Faults.Check, i)
+		}
+		if resetAfter[i] {
+			// a camera reset in between does not make the condition a new one
+			rc.Ev = append(rc.Ev, vfEv{K: vfEvReset, T: 12*3600 + 1800}, vfEv{K: vfEvFrame, T: 12*3600 + 1800})
 		}
 	}
 	run := vfDrive(rc, nil)
@@ -67,6 +80,6 @@ func vfRunC20Rec(c vfC20RecCase) *kit.Result {
 
 func TestVF_C20_Recorder(t *testing.T) {
 	kit.Drive(t, "C20", "TestVF_C20_Recorder",
-		"generated: 2-120 consecutive motion frames whose start is refused (storage check failing, or window closed) through a real MotionProcessor within far less than a minute of real time. Oracle: the recorder's interval is one minute and exactly one 'Recording not started' line is logged. Non-trivial: at least 50 refused frames.",
+		"generated: 2-120 motion frames whose start is refused (storage check failing, or window closed), with up to 3 camera resets in between, through a real MotionProcessor within far less than a minute of real time. Oracle: the recorder's interval is one minute and exactly one 'Recording not started' line is logged. Non-trivial: at least 50 refused frames.",
 		vfGenC20Rec, vfRunC20Rec)
 }
